@@ -129,6 +129,9 @@ def build_problem(case):
                                        for b in bnds)
     if rng.random() < 0.5:
         P['power']['total_power'] = float(rng.uniform(0.2, 3.0) * 1e5)
+        if rng.random() < 0.12:
+            # an unpowered run asked for through the normalisation
+            P['power']['total_power'] = 0.0
     if rng.random() < 0.5:
         P['power']['scaling'] = float(wl.choose(rng, [0.1, 0.5, 2.0, 3.0]))
     feats['norm'] = P['power'].get('total_power') is not None
@@ -215,6 +218,8 @@ def run_power(case, res):
                       abs(e) + 1e-12, TOL,
                       'Assembly._power_delivered != independent dz*power '
                       'tally', key)
+        if P['power'].get('total_power') == 0.0:
+            res.tag('total_power_zero_requested')
         for k in ('norm', 'aligned', 'cells', 'order', 'scaling', 'inches'):
             res.tag('%s=%s' % (k, feats.get(k)))
         res.tag('user_dz=%s' % (feats['user_dz'] is not None))
